@@ -701,7 +701,7 @@ pub fn gen_engine(r: &mut Rng, tier: &str, with_panic: bool, name: &'static str)
             let ns = if wide { 2 } else { scale(tier, 4, 10) };
             let scheds: Vec<Value> = (0..ns).map(|_| Sched::gen(r).to_json()).collect();
             let threads: Vec<u64> = (0..ns)
-                .map(|j| if with_panic { [2u64, 3, 4, 5, 4, 8][(i + j) % 6] } else { [1u64, 2, 3, 4, 8][(i + j) % 5] })
+                .map(|j| if with_panic { [2u64, 3, 4, 5, 1, 8, 16][(i + j) % 7] } else { [1u64, 2, 3, 4, 8, 1, 2, 3, 4, 24][(i + j) % 10] })
                 .collect();
             Case { stream: name, data: json!({"tree": tree.to_json(), "scheds": scheds, "threads": threads}) }
         })
